@@ -25,7 +25,8 @@ RULE = (
     "_spikes_per_cluster (with and without a gapped spike-id vector), _spikes_in_clusters for a "
     "fixed pool of requested lists (empty, unknown ids, unsorted, repeated), _unique, _index_of "
     "against unsorted lookups, _flatten_per_cluster, grouped_mean (1-D and 2-D values). "
-    "(rand) Hypothesis: vectors to length 3000 over ids up to 5000 with wide gaps, signed "
+    "(rand) Hypothesis: vectors to length 3000 over ids up to 5000 with wide gaps (uint16 "
+    "vectors also with ids 32768/65534/65535), signed "
     "vectors with -1 entries for _unique, random requested lists and lookups. "
     "(model) get_cluster_spikes/get_template_spikes/get_template_counts on generated datasets. "
     "Oracle: list comprehensions over enumerate(vector) and Python sets. Non-trivial: >=2 distinct "
@@ -46,6 +47,10 @@ def _rand_case(draw):
     nids = draw(st.integers(1, 12))
     ids = draw(st.lists(st.integers(0, 5000), min_size=nids, max_size=nids, unique=True))
     dt = draw(st.sampled_from(DTYPES))
+    if dt == 'uint16' and draw(st.booleans()):
+        # ids at the top of the dtype's range (bincount-sized tables stay small for uint16 only)
+        ids = sorted(set(ids[:-1] + [draw(st.sampled_from([65535, 65534, 32768]))]))
+        nids = len(ids)
     idx = draw(st.lists(st.integers(0, nids - 1), min_size=n, max_size=n))
     v = [ids[i] for i in idx]
     req = draw(st.lists(st.sampled_from(ids) | st.integers(0, 5001), max_size=6))
